@@ -19,9 +19,9 @@ RULE = (
     "by); non-trivial = anything but an unrepeated argument on unrepeated targets."
 )
 SHARDS = {"quick": 16, "thorough": 16}
-TIMEOUT = {"quick": 240, "thorough": 3000}
-MIN_EVALS = {"quick": 8000, "thorough": 200000}
-CASES = {"quick": 160, "thorough": 7000}  # per shard
+TIMEOUT = {"quick": 300, "thorough": 5400}
+MIN_EVALS = {"quick": 8000, "thorough": 150000}
+CASES = {"quick": 160, "thorough": 4000}  # per shard
 STEPS = {"quick": 10, "thorough": 24}
 ASSUMPTIONS = [
     "O-GRID (DESIGN Appendix A) is the meaning of 'plain grid'; deleting the last declared column and "
